@@ -611,3 +611,43 @@ def must_conds(paths, bb):
         cs = {(c[1], c[2]) for c in p.conds if c[0] == "switch" and c[4] in before}
         acc = cs if acc is None else (acc & cs)
     return acc
+
+
+def const_value(t):
+    """Integer value of a closed arithmetic term (constants, casts, Div/Rem/shift/mask/add/sub/mul, trailing_zeros,
+    count_ones), or None when some part is not a constant.  Used by rules that tabulate a small pure function on a
+    range of inputs (e.g. the word/bit index of the jointness bit vector)."""
+    W = {"u8": 8, "u16": 16, "u32": 32, "u64": 64, "usize": 64, "u128": 128, "i8": 8, "i16": 16, "i32": 32, "i64": 64, "isize": 64, "i128": 128}
+    t = strip_transparent(t) if isinstance(t, tuple) else t
+    if not isinstance(t, tuple):
+        return None
+    if t[0] == "c" and isinstance(t[2], int):
+        return t[2]
+    if t[0] == "cast":
+        v = const_value(t[2])
+        if v is None:
+            return None
+        w = W.get(str(t[1]).split("::")[-1])
+        return v & ((1 << w) - 1) if w and not str(t[1]).startswith("i") else v
+    if t[0] == "bin":
+        a, b = const_value(t[2]), const_value(t[3])
+        if a is None or b is None:
+            return None
+        try:
+            return {"Div": lambda: a // b, "Rem": lambda: a % b, "Shr": lambda: a >> b, "Shl": lambda: a << b, "BitAnd": lambda: a & b, "BitOr": lambda: a | b,
+                    "BitXor": lambda: a ^ b, "Add": lambda: a + b, "Sub": lambda: a - b, "Mul": lambda: a * b,
+                    "ShrUnchecked": lambda: a >> b, "ShlUnchecked": lambda: a << b, "AddUnchecked": lambda: a + b, "SubUnchecked": lambda: a - b, "MulUnchecked": lambda: a * b,
+                    "AddWithOverflow": lambda: a + b, "SubWithOverflow": lambda: a - b, "MulWithOverflow": lambda: a * b}[t[1]]()
+        except (KeyError, ZeroDivisionError, ValueError):
+            return None
+    if t[0] == "field" and isinstance(t[1], tuple) and t[1][0] == "bin" and t[1][1].endswith("WithOverflow") and t[2] == 0:
+        return const_value(t[1])
+    if t[0] in ("call", "pure") and isinstance(t[1], str) and len(t) > 2 and t[2]:
+        v = const_value(t[2][0])
+        if v is None:
+            return None
+        if t[1].endswith("::trailing_zeros"):
+            return (v & -v).bit_length() - 1 if v else None
+        if t[1].endswith("::count_ones"):
+            return bin(v).count("1")
+    return None
